@@ -404,3 +404,35 @@ func vc_C02_slice2d() {
 	}
 	vfAssert(r == a.v[0], "Slice2D returns the operand's value")
 }
+
+// RevolveTheta3D: the profile is evaluated at (rho, z); the wedge is the
+// intersection (theta < pi) or union (theta >= pi) of the half-planes y > 0 and
+// "clockwise of the theta line", for the angle normalised into [0, 2pi) - also
+// when the argument exceeds a full turn.
+func vc_C02_revolvetheta() {
+	vfTimeouts(3000, 20000)
+	turns := vfCase("turns", 3) // the raw angle lies in [turns*2pi, (turns+1)*2pi)
+	th := vfReal("theta")
+	vfAssume(th > float64(turns)*Tau+0.001)
+	vfAssume(th < float64(turns+1)*Tau-0.001)
+	a := vfNewLeaf2("a", 0)
+	s, err := RevolveTheta3D(a, th)
+	vfAssume(err == nil)
+	p := vfPoint3("p")
+	r := s.Evaluate(p)
+	vfReach("revolvetheta")
+	vfOnce2(a, v2.Vec{X: math.Sqrt(p.X*p.X + p.Y*p.Y), Y: p.Z}, "RevolveTheta3D")
+	sor := s.(*SorSDF3)
+	// the stored angle is the argument reduced by whole turns
+	want := th - float64(turns)*Tau
+	vfAssert(vfNearF(sor.theta, want), "RevolveTheta3D normalises the angle into [0, 2pi)")
+	sn, cs := math.Sin(sor.theta), math.Cos(sor.theta)
+	d := -sn*p.X + cs*p.Y // signed distance to the theta line, positive counter-clockwise of it
+	var wedge float64
+	if vfFork(want < math.Pi) {
+		wedge = vfMaxF(-p.Y, d)
+	} else {
+		wedge = vfMinF(-p.Y, d)
+	}
+	vfAssert(vfNearF(r, vfMaxF(a.v[0], wedge)), "RevolveTheta3D is the revolved profile intersected with the wedge of the normalised angle")
+}
